@@ -15,6 +15,9 @@
 package server
 
 import (
+	"errors"
+	"math"
+
 	"github.com/cybergarage/go-redis/redis"
 )
 
@@ -311,6 +314,9 @@ func (server *Server) ZIncBy(conn *redis.Conn, key string, inc float64, member s
 	_, zset, err := db.GetZSetRecord(key)
 	if err != nil {
 		return nil, err
+	}
+	if score, ok := zset.Score(member); ok && math.IsNaN(score+inc) {
+		return nil, errors.New("resulting score is not a number (NaN)")
 	}
 	return redis.NewFloatMessage(zset.IncBy(inc, member)), nil
 }
